@@ -44,6 +44,8 @@ class Contract:
         self.lemmas: Dict[str, ast.expr] = {}
         self.properties: List[str] = []
         self.note = ""
+        self.opaque_results: Dict[str, str] = {}
+        self.opaque_calls: List[str] = []
 
 
 class SpecFunc:
@@ -82,6 +84,8 @@ def load_contracts(paths) -> "SpecEnv":
                     elif name == "modular": c.modular = ast.literal_eval(v)
                     elif name == "allocates": c.allocates = ast.literal_eval(v)
                     elif name == "properties": c.properties = ast.literal_eval(v)
+                    elif name == "opaque_results": c.opaque_results = ast.literal_eval(v)
+                    elif name == "opaque_calls": c.opaque_calls = ast.literal_eval(v)
                     elif name == "note": c.note = ast.literal_eval(v)
                     elif name == "requires": c.requires = _lam(v)
                     elif name in ("ensures", "raises", "on_raise", "loops", "lemmas"):
@@ -393,6 +397,8 @@ class PureEval:
             if n == "append": return ops.seq_append(args[0], term_of(args[1]))
             if n == "alive": return B(self.st.alive[args[0].t])
             if n == "warned": return B(self.st.warned)
+            if n == "last": return B(self.st.ghost.get("last:" + e.args[0].value, z3.BoolVal(False)))
+            if n == "count": return I(self.st.ghost.get("count:" + e.args[0].value, z3.IntVal(0)))
             if n == "tuple" or n == "list": return args[0] if args else EmptySeqP()
             if n == "set": return self.ex.to_setv(args[0], self.st)
             if n in ("all", "any"):
